@@ -289,7 +289,9 @@ TEXT = {
         "text": "Lean model of the persistent cache (sorted index, insertion, lookup), of the cache-backed searcher, of LoadState through it "
                 "and of verification with checkpoints, threaded through the verification loop. Proved: insertion keeps the index "
                 "ascending and adds exactly the new entry; on an ascending index the lookup returns the greatest listed entry not above "
-                "the requested one; PopulatePersistentCache lists exactly the policy reference entries, ascending; and, by kernel "
+                "the requested one; PopulatePersistentCache lists exactly the policy reference entries, ascending; a freshly populated (covering) "
+                "cache answers the policy look-up for any non-policy entry exactly as the scan of the log does, for every history "
+                "(C08_lookup_refines); and, by kernel "
                 "evaluation of the whole verification model, the two cache defects of this tree: F6 (a cache populated before a policy "
                 "change makes latest-only verification accept a de-authorized key) and F29 (a checkpoint written by a successful "
                 "latest-only / from-entry verification makes later full verification skip earlier violations). The full statement "
